@@ -497,7 +497,8 @@ Inductive out :=
 | OCall (f : fid) (arg : option val)
 | ONew (o : objid)
 | ODumpObj (ext : bool) (proto : option objid) (props : list (key * pdesc))
-| OIC (e : list icev).
+| OIC (e : list icev)
+| OBadStore.      (* ghost, never printed: this step stored a cache entry that does not describe the receiver's shape now *)
 
 Definition call_getter (f : fid) : list out * val := ([OCall f None], VNum (1000 + f)).
 Definition call_setter (f : fid) (v : val) : list out := [OCall f (Some v)].
@@ -703,11 +704,68 @@ Definition pshape_of (h : heap) (s : shape) (sl : slot) : option shape :=
     | None => None
     end
   else None.
-Definition ic_set (c : cache) (h : heap) (s : shape) (sl : slot) : cache * list icev :=
-  if c_mega c then (c, [EvRefused])
+(* the slot patterns the lookups produce: get_with_slot from Slot::new() on the receiver, resp. after one prototype step *)
+Definition gws_attrs (inb : N) (a : dattrs) : N :=
+  N.lor (N.lor (N.land inb sf_INLINE_CACHE_BITS) (bits_of a)) sf_FOUND.
+Definition proto_in : N := N.lor (sf_set_not_cacheable_if_already_prototype 0) sf_PROTOTYPE.
+Definition own_pat (i : N) (a : dattrs) : slot := {| s_index := i; s_attrs := gws_attrs 0 a |}.
+Definition proto_pat (i : N) (a : dattrs) : slot := {| s_index := i; s_attrs := gws_attrs proto_in a |}.
+Definition slot_eqb (a b : slot) : bool := N.eqb (s_index a) (s_index b) && N.eqb (s_attrs a) (s_attrs b).
+Definition proto_lookup (h : heap) (s : shape) (k : key) : option tslot :=
+  match shape_proto h s with
+  | Some p => match get_obj h p with Some px => lookup_shape h (o_shape px) k | None => None end
+  | None => None
+  end.
+(* decidable: [sl] says where the uncached lookup of k finds the property for an object of shape s now *)
+Definition describes_b (kd : skind) (h : heap) (k : key) (s : shape) (sl : slot) : bool :=
+  match lookup_shape h s k with
+  | Some (i, a) => slot_eqb sl (own_pat i a) && (if skind_eqb kd SSet then a_is_accessor a || a_w a else true)
+  | None => match proto_lookup h s k with
+            | Some (i, a) => slot_eqb sl (proto_pat i a) && (if skind_eqb kd SSet then a_is_accessor a else true)
+            | None => false
+            end
+  end.
+
+(* InlineCache::set re-looks the name up after the slow path (which may have run a getter/setter):
+   RNone  = before 26b9acc (no re-check),
+   RIndex = 26b9acc: the slot index must still be where the property lives (receiver's shape, or prototype's shape for
+            PROTOTYPE slots),
+   RFull  = proposed (fixes.d/C06-ic-store-full-recheck.patch): index and attributes must match, and for PROTOTYPE slots the
+            receiver must not have the property itself *)
+Inductive recheck := RNone | RIndex | RFull.
+Definition attrs_match (a : dattrs) (sl : slot) : bool :=
+  N.eqb (bits_of a) (N.land (s_attrs sl) (N.lxor sf_INLINE_CACHE_BITS 255)).
+Definition recheck_ok (rc : recheck) (h : heap) (k : key) (s : shape) (sl : slot) : bool :=
+  let proto := has_flag (s_attrs sl) sf_PROTOTYPE in
+  match rc with
+  | RNone => true
+  | RIndex =>
+      match (if proto then proto_lookup h s k else lookup_shape h s k) with
+      | Some (i, _) => N.eqb i (s_index sl)
+      | None => false
+      end
+  | RFull =>
+      if proto then
+        match lookup_shape h s k with
+        | Some _ => false
+        | None => match proto_lookup h s k with
+                  | Some (i, a) => N.eqb i (s_index sl) && attrs_match a sl
+                  | None => false
+                  end
+        end
+      else match lookup_shape h s k with
+           | Some (i, a) => N.eqb i (s_index sl) && attrs_match a sl
+           | None => false
+           end
+  end.
+(* InlineCache::set; the 's' event is logged before the re-check.  Third component: ghost flag "stored a non-describing entry" *)
+Definition ic_set (rc : recheck) (kd : skind) (c : cache) (h : heap) (k : key) (s : shape) (sl : slot) : cache * list icev * bool :=
+  if c_mega c then (c, [EvRefused], false)
+  else if negb (recheck_ok rc h k s sl) then (c, [EvStore], false)
   else if N.ltb (lenN (c_entries c)) sf_PIC_CAPACITY
-       then ({| c_entries := c_entries c ++ [{| e_shape := s; e_pshape := pshape_of h s sl; e_slot := sl |}]; c_mega := false |}, [EvStore])
-       else ({| c_entries := []; c_mega := true |}, [EvStore]).
+       then ({| c_entries := c_entries c ++ [{| e_shape := s; e_pshape := pshape_of h s sl; e_slot := sl |}]; c_mega := false |},
+             [EvStore], negb (describes_b kd h k s sl))
+       else ({| c_entries := []; c_mega := true |}, [EvStore], false).
 
 Record state := { st_heap : heap; st_sites : sites }.
 
@@ -718,76 +776,6 @@ Definition hit_store (h : heap) (x : obj) (sl : slot) : option (list val) :=
     px <- get_obj h p ;;
     Some (o_store px)
   else Some (o_store x).
-
-(* get_by_name::<false> (GetPropertyByName) and GetNameGlobal.  [ic]: caches enabled (false = NO_IC switch).
-   Returns (outputs, state); the value read is the last output before the OIC record. *)
-Definition cached_get (ic : bool) (glob : bool) (st : state) (id : siteid) (o : objid) : option (list out * state) :=
-  let h := st_heap st in
-  let '(_, _, k) := id in
-  match get_obj h o with
-  | None => Some ([ONoObj], st)
-  | Some x =>
-      let c0 := site_get (st_sites st) id in
-      let '(hit, c, ev) := if ic then ic_get c0 h k (o_shape x) else (None, c0, []) in
-      match hit with
-      | Some sl =>
-          stg <- hit_store h x sl ;;
-          result <- nthN stg (s_index sl) ;;
-          let '(tr, result) :=
-            if sf_has_get (s_attrs sl) && is_object result
-            then match result with VFun f => call_getter f | _ => ([], result) end
-            else ([], result) in
-          Some (tr ++ [OVal result; OIC ev], st)
-      | None =>
-          '(tr, r, sl) <- ordinary_try_get (chain_fuel h) h o k slot_new ;;
-          let '(c', ev') := if ic && sf_is_cacheable (s_attrs sl) then ic_set c h (o_shape x) sl else (c, []) in
-          let st' := {| st_heap := h; st_sites := if ic then site_put (st_sites st) id c' else st_sites st |} in
-          match r with
-          | Some v => Some (tr ++ [OVal v; OIC (ev ++ ev')], st')
-          | None => if glob then Some (tr ++ [ORefErr; OIC (ev ++ ev')], st')     (* "x is not defined" *)
-                    else Some (tr ++ [OVal VUndef; OIC (ev ++ ev')], st')
-          end
-      end
-  end.
-
-(* set_by_name (SetPropertyByName) in strict code: a failed [[Set]] is a TypeError *)
-Definition cached_set (ic : bool) (st : state) (id : siteid) (o : objid) (v : val) : option (list out * state) :=
-  let h := st_heap st in
-  let '(_, _, k) := id in
-  match get_obj h o with
-  | None => Some ([ONoObj], st)
-  | Some x =>
-      let c0 := site_get (st_sites st) id in
-      let '(hit, c, ev) := if ic then ic_get c0 h k (o_shape x) else (None, c0, []) in
-      match hit with
-      | Some sl =>
-          let i := s_index sl in
-          if sf_is_accessor_descriptor (s_attrs sl) then
-            stg <- hit_store h x sl ;;
-            result <- nthN stg (i + 1) ;;
-            if sf_has_set (s_attrs sl) && is_object result
-            then Some ((match result with VFun f => call_setter f v | _ => [] end) ++ [OBool true; OIC ev], st)
-            else Some ([OTypeErr; OIC ev], st)          (* strict code: "cannot set property: the accessor has no setter" *)
-          else if has_flag (s_attrs sl) sf_PROTOTYPE then
-            p <- shape_proto h (o_shape x) ;;
-            px <- get_obj h p ;;
-            stg <- set_nth (o_store px) i v ;;
-            Some ([OBool true; OIC ev],
-                  {| st_heap := set_obj h p {| o_shape := o_shape px; o_store := stg; o_ext := o_ext px |};
-                     st_sites := st_sites st |})
-          else
-            stg <- set_nth (o_store x) i v ;;
-            Some ([OBool true; OIC ev],
-                  {| st_heap := set_obj h o {| o_shape := o_shape x; o_store := stg; o_ext := o_ext x |};
-                     st_sites := st_sites st |})
-      | None =>
-          '(tr, h', ok, sl) <- ordinary_set (chain_fuel h) h o k v o slot_new ;;
-          x' <- get_obj h' o ;;
-          let '(c', ev') := if ic && ok && sf_is_cacheable (s_attrs sl) then ic_set c h' (o_shape x') sl else (c, []) in
-          let st' := {| st_heap := h'; st_sites := if ic then site_put (st_sites st) id c' else st_sites st |} in
-          Some (tr ++ [if ok then OBool true else OTypeErr; OIC (ev ++ ev')], st')
-      end
-  end.
 
 (* ------------------------------------------------------------------------------------------- histories *)
 Inductive op :=
@@ -825,10 +813,139 @@ Fixpoint filter_keep {A} (l : list A) (keep : list bool) : list A :=
   | [], _ => []
   end.
 
+
+(* the heap operations (no site is executed, no accessor is called): also what the body of an accessor function may do *)
+Definition heap_op (h : heap) (o : op) : option (list out * heap) :=
+  match o with
+  | OpDefine o k d =>
+      match get_obj h o with
+      | None => Some ([ONoObj], h)
+      | Some _ => '(h', _, ok) <- define_own_property h o k d slot_new ;; Some ([OBool ok], h')
+      end
+  | OpDelete o k =>
+      match get_obj h o with
+      | None => Some ([ONoObj], h)
+      | Some _ => '(h', ok) <- ordinary_delete h o k ;; Some ([OBool ok], h')
+      end
+  | OpSetProto o p =>
+      match get_obj h o with
+      | None => Some ([ONoObj], h)
+      | Some _ => '(h', ok) <- ordinary_set_prototype_of h o p ;; Some ([OBool ok], h')
+      end
+  | OpPreventExt o =>
+      match get_obj h o with
+      | None => Some ([ONoObj], h)
+      | Some _ => h' <- prevent_extensions h o ;; Some ([OBool true], h')
+      end
+  | OpFreeze o =>
+      match get_obj h o with
+      | None => Some ([ONoObj], h)
+      | Some _ => '(h', ok) <- freeze h o ;; Some ([if ok then OBool true else OTypeErr], h')
+      end
+  | _ => Some ([], h)
+  end.
+
+(* accessor functions: F[f] prints its call, runs its body -- heap operations on the objects it names -- and (as a getter)
+   returns 1000+f.  All calls made by [[Get]]/[[Set]] and by the cached paths are tail calls of the lookup: the lookup (and the
+   slot it computed) is finished when the body runs, the cache store comes afterwards *)
+Definition ftab := list (list op).
+Definition body_of (ft : ftab) (f : fid) : list op := nth (N.to_nat f) ft [].
+Fixpoint apply_ops (h : heap) (b : list op) : option heap :=
+  match b with
+  | [] => Some h
+  | o :: r => '(_, h') <- heap_op h o ;; apply_ops h' r
+  end.
+Fixpoint apply_calls (ft : ftab) (h : heap) (tr : list out) : option heap :=
+  match tr with
+  | [] => Some h
+  | OCall f _ :: r => h' <- apply_ops h (body_of ft f) ;; apply_calls ft h' r
+  | _ :: r => apply_calls ft h r
+  end.
+
+Definition ghost (bad : bool) : list out := if bad then [OBadStore] else [].
+
+(* get_by_name::<false> (GetPropertyByName) and GetNameGlobal.  [ic]: caches enabled (false = NO_IC switch).
+   Returns (outputs, state); the value read is the last output before the OIC record. *)
+Definition cached_get (rc : recheck) (ic : bool) (ft : ftab) (glob : bool) (st : state) (id : siteid) (o : objid)
+  : option (list out * state) :=
+  let h := st_heap st in
+  let '(kd, _, k) := id in
+  match get_obj h o with
+  | None => Some ([ONoObj], st)
+  | Some x =>
+      let c0 := site_get (st_sites st) id in
+      let '(hit, c, ev) := if ic then ic_get c0 h k (o_shape x) else (None, c0, []) in
+      match hit with
+      | Some sl =>
+          stg <- hit_store h x sl ;;
+          result <- nthN stg (s_index sl) ;;
+          let '(tr, result) :=
+            if sf_has_get (s_attrs sl) && is_object result
+            then match result with VFun f => call_getter f | _ => ([], result) end
+            else ([], result) in
+          h1 <- apply_calls ft h tr ;;
+          Some (tr ++ [OVal result; OIC ev], {| st_heap := h1; st_sites := st_sites st |})
+      | None =>
+          '(tr, r, sl) <- ordinary_try_get (chain_fuel h) h o k slot_new ;;
+          h1 <- apply_calls ft h tr ;;
+          x1 <- get_obj h1 o ;;                                   (* object.borrow().shape() after the lookup *)
+          let '(c', ev', bad) := if ic && sf_is_cacheable (s_attrs sl) then ic_set rc kd c h1 k (o_shape x1) sl else (c, [], false) in
+          let st' := {| st_heap := h1; st_sites := if ic then site_put (st_sites st) id c' else st_sites st |} in
+          match r with
+          | Some v => Some (tr ++ [OVal v; OIC (ev ++ ev')] ++ ghost bad, st')
+          | None => if glob then Some (tr ++ [ORefErr; OIC (ev ++ ev')] ++ ghost bad, st')     (* "x is not defined" *)
+                    else Some (tr ++ [OVal VUndef; OIC (ev ++ ev')] ++ ghost bad, st')
+          end
+      end
+  end.
+
+(* set_by_name (SetPropertyByName) in strict code: a failed [[Set]] is a TypeError *)
+Definition cached_set (rc : recheck) (ic : bool) (ft : ftab) (st : state) (id : siteid) (o : objid) (v : val)
+  : option (list out * state) :=
+  let h := st_heap st in
+  let '(kd, _, k) := id in
+  match get_obj h o with
+  | None => Some ([ONoObj], st)
+  | Some x =>
+      let c0 := site_get (st_sites st) id in
+      let '(hit, c, ev) := if ic then ic_get c0 h k (o_shape x) else (None, c0, []) in
+      match hit with
+      | Some sl =>
+          let i := s_index sl in
+          if sf_is_accessor_descriptor (s_attrs sl) then
+            stg <- hit_store h x sl ;;
+            result <- nthN stg (i + 1) ;;
+            if sf_has_set (s_attrs sl) && is_object result
+            then let tr := match result with VFun f => call_setter f v | _ => [] end in
+                 h1 <- apply_calls ft h tr ;;
+                 Some (tr ++ [OBool true; OIC ev], {| st_heap := h1; st_sites := st_sites st |})
+            else Some ([OTypeErr; OIC ev], st)          (* strict code: "cannot set property: the accessor has no setter" *)
+          else if has_flag (s_attrs sl) sf_PROTOTYPE then
+            p <- shape_proto h (o_shape x) ;;
+            px <- get_obj h p ;;
+            stg <- set_nth (o_store px) i v ;;
+            Some ([OBool true; OIC ev],
+                  {| st_heap := set_obj h p {| o_shape := o_shape px; o_store := stg; o_ext := o_ext px |};
+                     st_sites := st_sites st |})
+          else
+            stg <- set_nth (o_store x) i v ;;
+            Some ([OBool true; OIC ev],
+                  {| st_heap := set_obj h o {| o_shape := o_shape x; o_store := stg; o_ext := o_ext x |};
+                     st_sites := st_sites st |})
+      | None =>
+          '(tr, h', ok, sl) <- ordinary_set (chain_fuel h) h o k v o slot_new ;;
+          h1 <- apply_calls ft h' tr ;;
+          x' <- get_obj h1 o ;;
+          let '(c', ev', bad) := if ic && ok && sf_is_cacheable (s_attrs sl) then ic_set rc kd c h1 k (o_shape x') sl else (c, [], false) in
+          let st' := {| st_heap := h1; st_sites := if ic then site_put (st_sites st) id c' else st_sites st |} in
+          Some (tr ++ [if ok then OBool true else OTypeErr; OIC (ev ++ ev')] ++ ghost bad, st')
+      end
+  end.
+
 Definition with_heap (st : state) (h : heap) : state := {| st_heap := h; st_sites := st_sites st |}.
 
 (* one operation; None = the engine panicked *)
-Definition step (ic : bool) (st : state) (o : op) : option (list out * state) :=
+Definition step (rc : recheck) (ic : bool) (ft : ftab) (st : state) (o : op) : option (list out * state) :=
   let h := st_heap st in
   match o with
   | OpAlloc uq p =>
@@ -841,34 +958,11 @@ Definition step (ic : bool) (st : state) (o : op) : option (list out * state) :=
       else
         Some ([ONew id], with_heap st {| h_objs := h_objs h ++ [{| o_shape := ShShared [TProto p]; o_store := []; o_ext := true |}];
                                           h_ushapes := h_ushapes h |})
-  | OpDefine o k d =>
-      match get_obj h o with
-      | None => Some ([ONoObj], st)
-      | Some _ => '(h', _, ok) <- define_own_property h o k d slot_new ;; Some ([OBool ok], with_heap st h')
-      end
-  | OpDelete o k =>
-      match get_obj h o with
-      | None => Some ([ONoObj], st)
-      | Some _ => '(h', ok) <- ordinary_delete h o k ;; Some ([OBool ok], with_heap st h')
-      end
-  | OpSetProto o p =>
-      match get_obj h o with
-      | None => Some ([ONoObj], st)
-      | Some _ => '(h', ok) <- ordinary_set_prototype_of h o p ;; Some ([OBool ok], with_heap st h')
-      end
-  | OpPreventExt o =>
-      match get_obj h o with
-      | None => Some ([ONoObj], st)
-      | Some _ => h' <- prevent_extensions h o ;; Some ([OBool true], with_heap st h')
-      end
-  | OpFreeze o =>
-      match get_obj h o with
-      | None => Some ([ONoObj], st)
-      | Some _ => '(h', ok) <- freeze h o ;; Some ([if ok then OBool true else OTypeErr], with_heap st h')
-      end
-  | OpGet s k o => cached_get ic false st (SGet, s, k) o
-  | OpSet s k o v => cached_set ic st (SSet, s, k) o v
-  | OpGetGlobal s k => cached_get ic true st (SGlobal, s, k) GLOBAL
+  | OpDefine _ _ _ | OpDelete _ _ | OpSetProto _ _ | OpPreventExt _ | OpFreeze _ =>
+      '(outs, h') <- heap_op h o ;; Some (outs, with_heap st h')
+  | OpGet s k o => cached_get rc ic ft false st (SGet, s, k) o
+  | OpSet s k o v => cached_set rc ic ft st (SSet, s, k) o v
+  | OpGetGlobal s k => cached_get rc ic ft true st (SGlobal, s, k) GLOBAL
   | OpDump o =>
       match get_obj h o with
       | None => Some ([ONoObj], st)
@@ -885,23 +979,33 @@ Definition step (ic : bool) (st : state) (o : op) : option (list out * state) :=
   end.
 
 (* a run: outputs per operation; a panic ends the run ([None] marker) *)
-Fixpoint run (ic : bool) (st : state) (ops : list op) : list (option (list out)) :=
+Fixpoint run (rc : recheck) (ic : bool) (ft : ftab) (st : state) (ops : list op) : list (option (list out)) :=
   match ops with
   | [] => []
   | o :: r =>
-      match step ic st o with
+      match step rc ic ft st o with
       | None => [None]
-      | Some (outs, st') => Some outs :: run ic st' r
+      | Some (outs, st') => Some outs :: run rc ic ft st' r
       end
   end.
 
-(* what a program can observe: everything except the cache decisions *)
-Definition visible (o : out) : bool := match o with OIC _ => false | _ => true end.
+(* what a program can observe: everything except the cache decisions (and the ghost marker) *)
+Definition visible (o : out) : bool := match o with OIC _ | OBadStore => false | _ => true end.
 Definition observable (r : list (option (list out))) : list (option (list out)) :=
   map (fun x => match x with Some l => Some (filter visible l) | None => None end) r.
 
-Definition run_cached (ops : list op) := run true init ops.
-Definition run_uncached (ops : list op) := run false init ops.
+(* the engine as it is (26b9acc): index-only re-check before the store *)
+Definition run_cached (ft : ftab) (ops : list op) := run RIndex true ft init ops.
+Definition run_uncached (ft : ftab) (ops : list op) := run RIndex false ft init ops.
+
+(* first operation of a run that stored a non-describing entry *)
+Fixpoint first_bad_store (r : list (option (list out))) (i : N) : option N :=
+  match r with
+  | [] => None
+  | Some l :: t => if existsb (fun o => match o with OBadStore => true | _ => false end) l then Some i else first_bad_store t (i + 1)
+  | None :: _ => None
+  end.
+Definition BadStore (rc : recheck) (ft : ftab) (ops : list op) : Prop := first_bad_store (run rc true ft init ops) 0 <> None.
 
 (* ------------------------------------------------------------------------------------------- the residual class
    The only place left where the hit path differs from the slow path: an accessor slot without GET (resp. SET) flag, or
@@ -942,14 +1046,14 @@ Definition hit_irregular (st : state) (o : op) : bool :=
   end.
 
 (* position of the first such step in the cached run of a history *)
-Fixpoint first_irregular (st : state) (ops : list op) (i : N) : option N :=
+Fixpoint first_irregular (rc : recheck) (ft : ftab) (st : state) (ops : list op) (i : N) : option N :=
   match ops with
   | [] => None
   | o :: r =>
       if hit_irregular st o then Some i
-      else match step true st o with
-           | Some (_, st') => first_irregular st' r (i + 1)
+      else match step rc true ft st o with
+           | Some (_, st') => first_irregular rc ft st' r (i + 1)
            | None => None
            end
   end.
-Definition Irregular (ops : list op) : Prop := first_irregular init ops 0 <> None.
+Definition Irregular (rc : recheck) (ft : ftab) (ops : list op) : Prop := first_irregular rc ft init ops 0 <> None.
